@@ -89,6 +89,8 @@ def summarize(prop, tier, seed, hs, by_h, engine_b=None, wall_s=0.0, extra_assum
         for r in rs:
             for f in r.get("fails", []):
                 rv = f.get("replay_verdict")
+                if rv == "skipped":
+                    continue
                 if rv is True or rv == "ignored" or rv != f["label"]:
                     # does not reproduce concretely with the same label
                     if f["label"] == "hang":
